@@ -39,7 +39,7 @@ def _http_template(rng, tag, framing):
 
 
 def _inject(steps, at, kind):
-    fail = {"raise": ["raise", "Exception"], "return": ["return"], "cancel": ["cancel_self"]}[kind]
+    fail = {"raise": ["raise", "Exception"], "raise_group": ["raise", "ExceptionGroup"], "return": ["return"], "cancel": ["cancel_self"]}[kind]
     return steps[:at] + [["note", "crash-point"], fail] + steps[at:]
 
 
@@ -145,7 +145,7 @@ def gen(rng, tier):
     reps = 4 if tier == "quick" else 30
     for rep in range(reps):
         for proto in ("h1.cl", "h1.chunked", "h1.keepalive2", "h2", "ws.handshake", "ws.session"):
-            for kind in ("raise", "return", "cancel"):
+            for kind in ("raise", "raise_group", "return", "cancel"):
                 for variant in range(3 if tier == "quick" else 5):
                     n += 1
                     tag = n
@@ -155,6 +155,11 @@ def gen(rng, tier):
                         for at in range(len(steps) + 1):
                             script = _inject(steps, at, kind)
                             req = h1.build_request(b"POST", b"/t%d" % tag, [(b"Host", b"h")], body=b"abc", framing="cl")
+                            if variant == 2:
+                                # a body that arrives as more messages than the application queue holds, all before the application runs
+                                nchunks = rng.choice([9, 11, 12, 30])
+                                req = (b"POST /t%d HTTP/1.1\r\nHost: h\r\nTransfer-Encoding: chunked\r\n\r\n" % tag +
+                                       b"".join(b"4\r\nc%03d\r\n" % k for k in range(nchunks)) + b"0\r\n\r\n")
                             client = []
                             by_tag = {str(tag): script}
                             first = None
@@ -305,7 +310,7 @@ def check(case, obs, tally):
     if not reached:
         tally.inconclusive["crash-point-not-reached"] += 1
         return out
-    if kind == "raise":
+    if kind in ("raise", "raise_group"):
         tally.clause("logged")
         if not _logged(obs):
             out.append({"clause": "logged", "sig": "C05.not-logged/%s" % t["proto"],
@@ -355,6 +360,11 @@ def check(case, obs, tally):
             if mine is None or mine.status != 500 or not mine.complete:
                 out.append({"clause": "pre-start-500", "sig": "C05.no-500/h1/%s" % kind,
                             "detail": "crash before response start: got %r" % (mine.as_dict() if mine else None)})
+            elif not closed or obs.handler != "ok":
+                # the 500 announces "connection: close": the failure must not leave the connection (and its task) behind
+                out.append({"clause": "pre-start-500", "sig": "C05.not-terminated/h1/after-500/%s" % kind,
+                            "detail": "500 sent after the application failed, but at quiescence closed=%r handler=%s tasks_left=%r blocked=%r" % (
+                                closed, obs.handler, obs.tasks_left, obs.blocked_puts())})
         elif completed or (t["framing"] == "cl" and sent >= t["total"]):
             tally.clause("complete-ok")
             if mine is None or not mine.complete:
